@@ -43,7 +43,7 @@ func verifListenPacket(network, address string) (net.PacketConn, error) {
 		verifChanTargets = append(verifChanTargets, pc)
 		return pc, nil
 	}
-	pc := &verifPacketConn{name: "target", endErr: verifTimeoutErr{}, local: &net.UDPAddr{IP: net.IPv4(192, 0, 2, 1), Port: 20000 + len(verifTargets)}}
+	pc := &verifPacketConn{name: "target", endErr: verifTimeoutErr{}, blocksWithoutDeadline: true, local: &net.UDPAddr{IP: net.IPv4(192, 0, 2, 1), Port: 20000 + len(verifTargets)}}
 	if verifReplyScript != nil {
 		verifReplyScript(len(verifTargets), pc)
 	}
@@ -309,7 +309,7 @@ func verifUDPReplies(nReplies int) {
 	client.reads = []verifRead{{data: wire, addr: verifClientAddrs[0]}}
 	h.Handle(client)
 	verifQuiesce()
-	verifAssert("C03.reply.count", len(client.writes) == nReplies)
+	verifAssert("C03.reply.count|C04.reply.every-datagram-from-any-sender-is-delivered", len(client.writes) == nReplies)
 	for i := range reps {
 		if i >= len(client.writes) {
 			break
@@ -808,6 +808,22 @@ func VH_C04_datagram_during_teardown() {
 		}
 	}
 	verifAssert("C04.teardown.at-most-one-live-association-per-client", live <= 1)
+	// each of the three datagrams was relayed on some association and is reported there, once:
+	// also the one that arrived while its association was being removed
+	reports, okReports, relayed := 0, 0, 0
+	for i, cm := range um.entries {
+		reports += len(cm.fromClient)
+		for _, r := range cm.fromClient {
+			if r.status == "OK" {
+				okReports++
+			}
+		}
+		if i < len(verifChanTargets) {
+			relayed += len(verifChanTargets[i].Written())
+		}
+	}
+	verifAssert("C16.teardown.every-datagram-reported-once", reports == 3)
+	verifAssert("C16.teardown.reports-match-the-sockets", okReports == relayed)
 	// the last datagram left on the live association's socket
 	if live == 1 {
 		last := verifChanTargets[len(verifChanTargets)-1].Written()
@@ -852,4 +868,84 @@ func VH_C05_udp_refused_target_again() {
 		}
 	}
 	verifReach("C05.refused-again.done", len(um.entries) == 1)
+}
+
+// the socket refuses a datagram to the target (unreachable network, EPERM ...), possibly the very
+// one that opened the association: that datagram is reported with the write error and nothing
+// relayed, the others are relayed, and the association is still reclaimed once its time is up
+// (while the listener goes on serving): removed once, socket closed, no goroutine left
+func VH_C16_failed_target_write() {
+	verifResetNet()
+	cl, specs, _ := verifMakeList(1, 1, false)
+	key := verifKey(specs[0].cipher, verifSecrets[specs[0].secret])
+	um := &verifUDPMetrics{}
+	h := NewPacketHandler(defaultNatTimeout, cl, um, nil)
+	client := &verifChanPC{in: make(chan verifRead), closedCh: make(chan struct{}), local: &net.UDPAddr{IP: net.IPv4(192, 0, 2, 1), Port: 9}}
+	done := make(chan struct{})
+	go func() { h.Handle(client); close(done) }()
+	n := 1 + verifChoice("datagrams", 2)
+	failAt := 1 + verifChoice("fail-at", n)
+	verifReplyScript = func(i int, pc *verifPacketConn) {
+		pc.writeFailAt = failAt
+		// the target never answers: the association lives until its deadline
+		pc.reads = nil
+	}
+	for i := 0; i < n; i++ {
+		verifInject(client, verifPack(key, verifSocksV4([]byte{93, 184, 216, 34}, 443, []byte{'q', byte(i)})), verifClientAddrs[0])
+		if i+1 < n {
+			verifPause()
+		}
+	}
+	verifQuiesce()
+	// (the scripted target socket times out as soon as a deadline is armed and nothing is left to
+	// read; without any deadline a read on it waits for ever, as on a real socket)
+	verifAssert("C16.failed-target-write.associations", len(um.entries) >= 1 && len(um.entries) == len(verifTargets))
+	reports, forwarded := 0, 0
+	for i, cm := range um.entries {
+		reports += len(cm.fromClient)
+		for _, r := range cm.fromClient {
+			verifAssert("C16.failed-target-write.status-and-bytes", (r.status == "ERR_WRITE" && r.b == 0) || (r.status == "OK" && r.b == 2))
+		}
+		if i < len(verifTargets) {
+			forwarded += len(verifTargets[i].Writes())
+			verifAssert("C16.failed-target-write.removed-once|C14.failed-target-write.removed-once", cm.removed == 1)
+			verifAssert("C14.failed-target-write.socket-closed|C18.failed-target-write.socket-closed", verifTargets[i].closed == 1)
+		}
+	}
+	verifAssert("C16.failed-target-write.every-datagram-reported-once", reports == n)
+	verifAssert("C18.failed-target-write.no-goroutine-left|C14.failed-target-write.no-goroutine-left", verifBlockedIn("timedCopy") == 0)
+	client.Close()
+	verifQuiesce()
+	<-done
+	verifReach("C16.failed-target-write.done", true)
+}
+
+// the id of a key is configuration data, not a search result: a key configured without an id
+// (or with any id) is a key of the service over UDP as it is over TCP. Its datagram opens an
+// association attributed to that id, is forwarded, and the search is reported as successful
+func VH_C09_udp_key_with_any_id() {
+	verifResetNet()
+	verifEmptyIDs = verifFlag("empty-key-ids")
+	defer func() { verifEmptyIDs = false }()
+	cl, specs, entries := verifMakeList(1+verifChoice("keys", 2), 2, false)
+	which := verifChoice("which", len(specs))
+	key := verifKey(specs[which].cipher, verifSecrets[specs[which].secret])
+	um := &verifUDPMetrics{}
+	h := NewPacketHandler(defaultNatTimeout, cl, um, nil)
+	client := &verifPacketConn{name: "client"}
+	client.reads = []verifRead{{data: verifPack(key, verifSocksV4([]byte{93, 184, 216, 34}, 443, []byte("q"))), addr: verifClientAddrs[0]}}
+	h.Handle(client)
+	verifQuiesce()
+	verifAssert("C09.udp-any-id.association-opened|C03.udp-any-id.association-opened", len(um.entries) == 1 && len(verifTargets) == 1)
+	if len(um.entries) == 1 && len(verifTargets) == 1 {
+		ok := false
+		for j := range specs {
+			if specs[j] == specs[which] && entries[j].ID == um.entries[0].accessKey {
+				ok = true
+			}
+		}
+		verifAssert("C09.udp-any-id.attributed-to-the-configured-id|C03.udp-any-id.attributed-to-the-configured-id", ok)
+		verifAssert("C09.udp-any-id.forwarded|C03.udp-any-id.forwarded", len(verifTargets[0].writes) == 1 && string(verifTargets[0].writes[0].data) == "q")
+	}
+	verifReach("C09.udp-any-id.empty", verifEmptyIDs)
 }
